@@ -176,3 +176,78 @@ func VerifC19() {
 	}
 	verifrt.Reach("end")
 }
+
+// VerifC19Long: long histories with priorities constrained to one of a few
+// order shapes (ascending, descending, zig-zag), so that every comparison of
+// the heap code is decided by the path condition and the whole history is a
+// single symbolic path per shape: n pushes (n up to the bound), a drain to a
+// quarter, optional Reverse, pushes again, full drain. Covers behaviour that
+// depends on the size or capacity of the backing array (growth, shrinking),
+// which the short all-histories runs cannot reach.
+func VerifC19Long() {
+	n := verifrt.Bound("n", 40)
+	shape := verifrt.Choose("shape", 3)
+	isMin := verifrt.Choose("queue", 2) == 0
+	prio := make([]float32, n)
+	for i := range prio {
+		prio[i] = verifrt.F32Order("p")
+	}
+	// the order shape as assumptions: all distinct, ranked by `rank`
+	rank := make([]int, n)
+	for i := range rank {
+		switch shape {
+		case 0:
+			rank[i] = i
+		case 1:
+			rank[i] = n - 1 - i
+		default:
+			if i%2 == 0 {
+				rank[i] = i / 2
+			} else {
+				rank[i] = n - 1 - i/2
+			}
+		}
+	}
+	byRank := make([]int, n)
+	for i, r := range rank {
+		byRank[r] = i
+	}
+	for r := 1; r < n; r++ {
+		verifrt.Assume(prio[byRank[r-1]] < prio[byRank[r]])
+	}
+	var q PriorityQueue
+	if isMin {
+		q = NewMinPriorityQueue()
+	} else {
+		q = NewMaxPriorityQueue()
+	}
+	m := &c19Model{}
+	for i := 0; i < n; i++ {
+		q.Push(NewPriorityQueueItem(prio[i], i))
+		m.add(prio[i], i)
+		verifrt.Assert(q.Len() == m.count(), "long-len-after-push")
+	}
+	drainTo := func(q PriorityQueue, m *c19Model, isMin bool, keep int, what string) {
+		for q.Len() > keep {
+			before := q.Len()
+			item := q.Pop()
+			tag := m.checkExtreme(item, isMin, what)
+			if tag < 0 {
+				return
+			}
+			m.live[tag] = false
+			verifrt.Assert(q.Len() == before-1 && q.Len() == m.count(), what+"-len-drops-by-one")
+		}
+	}
+	drainTo(q, m, isMin, n/4, "long-drain")
+	if verifrt.Choose("reverse", 2) == 1 {
+		r := q.Reverse()
+		rm := m.clone()
+		verifrt.Assert(r.Len() == q.Len(), "long-reverse-same-len")
+		drainTo(r, rm, !isMin, 0, "long-reversed-drain")
+		verifrt.Assert(rm.count() == 0, "long-reversed-holds-exactly-the-items")
+	}
+	drainTo(q, m, isMin, 0, "long-final-drain")
+	verifrt.Assert(m.count() == 0 && q.Len() == 0, "long-queue-holds-exactly-pushed-minus-popped")
+	verifrt.Reach("long-end")
+}
